@@ -272,7 +272,7 @@ pub fn run_one(tr: &RunTrace, opts: &RunOpts) -> RunReport {
     c.insert("sched_yield_points", sched_report.yields);
     c.insert("sched_switches", sched_report.switches);
     c.insert("sched_fallback_free_running", u64::from(sched_report.fell_back_to_free_running));
-    c.insert(["scenario_random_mix", "scenario_contention", "scenario_sweep", "scenario_battery"][(tr.knobs.scn as usize).min(3)], 1);
+    c.insert(["scenario_random_mix", "scenario_contention", "scenario_sweep", "scenario_battery", "scenario_clone_family"][(tr.knobs.scn as usize).min(4)], 1);
     c.insert("runs_with_stress_phase", u64::from(tr.knobs.stress > 0));
     c.insert("runs_with_immediate_repetition", u64::from(tr.knobs.repeat != 0));
 
